@@ -388,7 +388,7 @@ class Verdict:
         self.total_violating = 0
 
 
-def classify_rejections(ctx, pid, module, harness_bin, harness_cmd, bad, scns, consts=None, max_examine=300,
+def classify_rejections(ctx, pid, module, harness_bin, harness_cmd, bad, scns, consts=None, max_examine=5000,
                         extra_args=(), reexec=None, max_report=25):
     """Step 4: re-run the rejected scenarios on the real code (one batch), keep those rejected again, then
     re-validate them with each known deviation switched on."""
